@@ -166,6 +166,68 @@ def c10_threads(spec, rec):
         sys.setswitchinterval(old)
 
 
+def c10_cap_race(spec, rec):
+    """several threads give slots back at the same moment while the semaphore
+    is one below its bound (what the result handler, the supervisor and
+    close() do concurrently).  Thread switches are injected at every line of
+    the semaphore's release/clear/grow with a sys.monitoring LINE hook
+    (yield injection), so the racing pair is visited at every pair of
+    positions.  Oracle: the bound, read under the semaphore's own lock."""
+    import sys
+    from billiard import pool as bp
+    rng = rng_for(spec['seed'], 'semrace')
+    M = sys.monitoring
+    TOOL = 2
+    codes = [getattr(bp.LaxBoundedSemaphore, n).__code__ for n in ('release', 'clear', 'grow')
+             if hasattr(bp.LaxBoundedSemaphore, n)]
+    hits = [0]
+
+    def on_line(code, line):
+        hits[0] += 1
+        time.sleep(0)           # hand the GIL to another thread here
+    M.use_tool_id(TOOL, 'vmon-c10')
+    M.register_callback(TOOL, M.events.LINE, on_line)
+    for c in codes:
+        M.set_local_events(TOOL, c, M.events.LINE)
+    old = sys.getswitchinterval()
+    sys.setswitchinterval(1e-6)
+    try:
+        for case in range(spec['cases']):
+            size = rng.choice([1, 2, 3])
+            ops = rng.choice([['release', 'release'], ['release', 'release', 'release'],
+                              ['release', 'clear'], ['clear', 'clear'],
+                              ['release', 'clear', 'release']])
+            sem = bp.LaxBoundedSemaphore(size)
+            sem.acquire()                    # exactly one slot taken
+            barrier = threading.Barrier(len(ops))
+
+            def run(op):
+                barrier.wait()
+                getattr(sem, op)()
+            ths = [threading.Thread(target=run, args=(op,)) for op in ops]
+            for t in ths:
+                t.start()
+            for t in ths:
+                t.join(30)
+            v, b = sem_read(sem)
+            rec.case()
+            rec.count('l0:cap_race_rounds')
+            attrs = {'lane': 'l0', 'mode': 'cap_race', 'ops': '+'.join(sorted(set(ops)))}
+            if v > b or v < 0:
+                rec.violation('slot_semaphore_out_of_bounds', attrs, value=v, bound=b, ops=ops,
+                              size=size)
+            elif v != b:
+                rec.violation('slot_not_returned', attrs, value=v, bound=b, ops=ops)
+            rec.sig(['semrace', size, ops])
+    finally:
+        sys.setswitchinterval(old)
+        for c in codes:
+            M.set_local_events(TOOL, c, 0)
+        M.register_callback(TOOL, M.events.LINE, None)
+        M.free_tool_id(TOOL)
+    rec.count('l0:yield_injections', hits[0])
+
+
 def c10_wakeups(spec, rec):
     """no lost wake-up: a submitter blocked on a full semaphore is released
     by release() and by grow()"""
